@@ -168,6 +168,10 @@ def canon_ext(name: str) -> str:
     return name
 
 
+class TypeUnion(tuple):
+    """X | Y | ... of type expressions."""
+
+
 class Interp:
     def __init__(self, index: Index, max_depth: int = 40, step_limit: int = 2_000_000):
         self.index = index
@@ -458,6 +462,10 @@ class Interp:
             if c in EXT_CONSTANTS:
                 return EXT_CONSTANTS[c]
             return ExtRef(full)
+        if isinstance(v, ClassRef) and name in ("__name__", "__qualname__", "__module__"):
+            return v.ci.module.name if name == "__module__" else v.ci.name
+        if isinstance(v, Builtin) and name in ("__name__", "__qualname__", "__module__"):
+            return "builtins" if name == "__module__" else v.name
         if isinstance(v, ClassRef):
             m = v.ci.lookup_method(name)
             if m is not None:
@@ -560,6 +568,7 @@ class Interp:
                 "dict": lambda x: isinstance(x, dict),
                 "slice": lambda x: isinstance(x, slice),
                 "set": lambda x: isinstance(x, set),
+                "type": lambda x: isinstance(x, (ClassRef, Builtin)),
             }.get(cls.name)
             if t is None:
                 raise AnalysisError(f"isinstance against builtin {cls.name}")
@@ -1075,8 +1084,12 @@ class Interp:
         return self.binop(_BINOPS[type(n.op)], self.eval(n.left, env), self.eval(n.right, env), n)
 
     def binop(self, op, a, b, node=None):
-        if op == "bitor" and (isinstance(a, (Builtin, ClassRef, ExtRef, type)) or isinstance(b, (Builtin, ClassRef, ExtRef, type))):
-            return ExtRef("typing.Union")  # a type expression such as `slice | int`
+        if op == "bitor" and (isinstance(a, (Builtin, ClassRef, ExtRef, type, TypeUnion)) or isinstance(b, (Builtin, ClassRef, ExtRef, type, TypeUnion))) and (a is None or b is None or all(isinstance(x, (Builtin, ClassRef, ExtRef, type, TypeUnion)) for x in (a, b))):
+            # a type expression such as `slice | int`: the tuple of its members (usable by isinstance)
+            flat = []
+            for x in (a, b):
+                flat.extend(x if isinstance(x, TypeUnion) else [x])
+            return TypeUnion(flat)
         if isinstance(a, AbsVal):
             r = a.av_binop(op, b, False)
             if r is not NotImplemented:
@@ -1876,6 +1889,8 @@ def _str(it, a, k):
         return str(v)
     if isinstance(v, Fraction):
         return str(float(v))
+    if isinstance(v, ExtRef):
+        return f"<class '{v.name}'>"  # an external class object (e.g. a jax dtype)
     return f"<{type(v).__name__}>"
 
 
@@ -1963,6 +1978,14 @@ def _type(it, a, k):
     v = a[0]
     if isinstance(v, Obj) and v.cls:
         return ClassRef(v.cls)
+    if v is None:
+        return Builtin("NoneType", lambda it_, a_, k_: None)
+    if isinstance(v, (bool, int, float, str, tuple, list, dict, set)) and type(v).__name__ in BUILTINS:
+        return BUILTINS[type(v).__name__]
+    if isinstance(v, Fraction):
+        return BUILTINS["float"]
+    if isinstance(v, (ExtRef, ClassRef)):
+        return BUILTINS["type"]
     return Unknown(f"type({type(v).__name__})")
 
 
